@@ -192,9 +192,15 @@ fn judge<T>(
 // ======================================================================
 // Encoder random walk
 
+/// The kind of codec that takes over the working space in a hand-over step:
+/// any rate (often the other one) and engine.
+fn handover_api(rng: &mut Rng) -> Api {
+    Api::Rate(gen::rate(rng), *rng.pick(&[EngineKind::NoSimd, EngineKind::Default, EngineKind::Avx2]))
+}
+
 fn encoder_walk(rng: &mut Rng, out: &mut CaseOut) {
-    let api = pick_api(rng);
-    let rate = api_rate(api);
+    let mut api = pick_api(rng);
+    let mut rate = api_rate(api);
     let (mut k, mut r, mut size) = small_config(rng, rate);
     let mut trail: Vec<String> = vec![format!("new {}({k},{r},{size})", api.name())];
     let mut enc: Box<dyn DynEnc> = match guarded(|| codec::make_enc(api, k, r, size, None)) {
@@ -213,7 +219,42 @@ fn encoder_walk(rng: &mut Rng, out: &mut CaseOut) {
     let steps = rng.range(10, if crate::thorough() { 200 } else { 40 });
     for _ in 0..steps {
         let before = out.violations.len();
-        match rng.below(10) {
+        match rng.below(11) {
+            // the working space goes to a new encoder (`into_parts`, then
+            // `new(.., Some(work))`), of any rate: same configuration, another
+            // valid one, or hostile arguments
+            10 => {
+                let api2 = handover_api(rng);
+                let rate2 = api_rate(api2);
+                let (nk, nr, ns) = match rng.below(4) {
+                    0 | 1 => (k, r, size),
+                    2 => small_config(rng, rate2),
+                    _ => (hostile_count(rng), hostile_count(rng), hostile_size(rng)),
+                };
+                let what = format!("{}::new({nk},{nr},{ns}, work of the previous object)", api2.name());
+                let v = v_config(rate2, nk, nr, ns);
+                let placeholder = codec::make_enc(Api::Wrapper, 1, 1, 2, None).expect("placeholder");
+                let work = std::mem::replace(&mut enc, placeholder).into_work();
+                let handed = work.is_some();
+                let res = guarded(|| codec::make_enc(api2, nk, nr, ns, work).map(|e| e as Box<dyn DynEnc>));
+                judge(out, &what, &v, &res, &trail);
+                trail.push(what);
+                match res {
+                    Ok(Ok(e)) => {
+                        enc = e;
+                        (api, rate, k, r, size) = (api2, rate2, nk, nr, ns);
+                        if handed {
+                            out.tag("handover-steps");
+                        }
+                    }
+                    _ => {
+                        // the working space is gone: carry on with a fresh object
+                        enc = codec::make_enc(api, k, r, size, None).expect("fresh object");
+                        trail.push(format!("new {}({k},{r},{size})", api.name()));
+                    }
+                }
+                count = 0;
+            }
             // add a shard (valid or hostile length)
             0..=4 => {
                 let len = if rng.chance(2, 3) { size } else { hostile_len(rng, size) };
@@ -297,8 +338,8 @@ fn encoder_walk(rng: &mut Rng, out: &mut CaseOut) {
 // Decoder random walk
 
 fn decoder_walk(rng: &mut Rng, out: &mut CaseOut) {
-    let api = pick_api(rng);
-    let rate = api_rate(api);
+    let mut api = pick_api(rng);
+    let mut rate = api_rate(api);
     let (mut k, mut r, mut size) = small_config(rng, rate);
     let mut trail: Vec<String> = vec![format!("new {}({k},{r},{size})", api.name())];
     let mut dec: Box<dyn DynDec> = match guarded(|| codec::make_dec(api, k, r, size, None)) {
@@ -319,7 +360,40 @@ fn decoder_walk(rng: &mut Rng, out: &mut CaseOut) {
     let base = |k: usize, r: usize| k.next_power_of_two().max(r.next_power_of_two());
     for _ in 0..steps {
         let before = out.violations.len();
-        match rng.below(12) {
+        match rng.below(13) {
+            // hand-over of the working space, as in the encoder walk
+            12 => {
+                let api2 = handover_api(rng);
+                let rate2 = api_rate(api2);
+                let (nk, nr, ns) = match rng.below(4) {
+                    0 | 1 => (k, r, size),
+                    2 => small_config(rng, rate2),
+                    _ => (hostile_count(rng), hostile_count(rng), hostile_size(rng)),
+                };
+                let what = format!("{}::new({nk},{nr},{ns}, work of the previous object)", api2.name());
+                let v = v_config(rate2, nk, nr, ns);
+                let placeholder = codec::make_dec(Api::Wrapper, 1, 1, 2, None).expect("placeholder");
+                let work = std::mem::replace(&mut dec, placeholder).into_work();
+                let handed = work.is_some();
+                let res = guarded(|| codec::make_dec(api2, nk, nr, ns, work).map(|d| d as Box<dyn DynDec>));
+                judge(out, &what, &v, &res, &trail);
+                trail.push(what);
+                match res {
+                    Ok(Ok(d)) => {
+                        dec = d;
+                        (api, rate, k, r, size) = (api2, rate2, nk, nr, ns);
+                        if handed {
+                            out.tag("handover-steps");
+                        }
+                    }
+                    _ => {
+                        dec = codec::make_dec(api, k, r, size, None).expect("fresh object");
+                        trail.push(format!("new {}({k},{r},{size})", api.name()));
+                    }
+                }
+                got_o.clear();
+                got_r.clear();
+            }
             0..=6 => {
                 let is_rec = rng.chance(1, 2);
                 let n = if is_rec { r } else { k };
